@@ -2,6 +2,7 @@ package fam
 
 import (
 	"context"
+	"encoding/base64"
 	"encoding/json"
 	"errors"
 	"fmt"
@@ -9,6 +10,7 @@ import (
 	"strings"
 
 	"github.com/gittuf/gittuf/internal/attestations"
+	"github.com/gittuf/gittuf/internal/attestations/authorizations"
 	"github.com/gittuf/gittuf/internal/policy"
 	"github.com/gittuf/gittuf/pkg/githash"
 	"github.com/gittuf/gittuf/pkg/gitstore"
@@ -33,28 +35,68 @@ type vPolicy struct {
 	Gthr  []vGthr                `json:"gthr"`
 	Bfp   []string               `json:"bfp"`
 	All   []string               `json:"all"`
+	Apps  hxAppMap               `json:"apps"`
 }
 
+// hxAppMap is the policy's app table (TLC renders the empty one as []).
+type hxAppMap map[string]vAppDecl
+
+func (m *hxAppMap) UnmarshalJSON(b []byte) error {
+	*m = hxAppMap{}
+	if len(b) > 0 && b[0] == '[' {
+		return nil
+	}
+	tmp := map[string]vAppDecl{}
+	if err := json.Unmarshal(b, &tmp); err != nil {
+		return err
+	}
+	*m = tmp
+	return nil
+}
+
+func identityOf(principal string) string { return "id-" + principal }
+
 type vApp struct {
-	Ref  string   `json:"ref"`
-	From int      `json:"from"`
-	Tree int      `json:"tree"`
-	By   []string `json:"by"`
-	// adversarial variants (C09): statement content differs from the storage path
-	StRef  string `json:"stRef,omitempty"`
-	StFrom *int   `json:"stFrom,omitempty"`
-	StTree *int   `json:"stTree,omitempty"`
+	Ref   string   `json:"ref"`
+	From  int      `json:"from"`
+	Tree  int      `json:"tree"`
+	Sref  string   `json:"sref"` // what the signed statement names
+	Sfrom int      `json:"sfrom"`
+	Stree int      `json:"stree"`
+	By    []string `json:"by"`
+}
+
+// vCr is a code-review (GitHub pull request) approval attestation.
+type vCr struct {
+	Ref       string   `json:"ref"`
+	From      int      `json:"from"`
+	Tree      int      `json:"tree"`
+	Sref      string   `json:"sref"`
+	Sfrom     int      `json:"sfrom"`
+	Stree     int      `json:"stree"`
+	App       string   `json:"app"`
+	Signer    string   `json:"signer"`
+	Approvers []string `json:"approvers"`
+	Dismissed []string `json:"dismissed"`
+}
+
+type vAppDecl struct {
+	Trusted bool   `json:"trusted"`
+	Key     string `json:"key"`
 }
 
 type vEntry struct {
 	K    string `json:"k"`
 	V    string `json:"v"`
+	Cv   *bool  `json:"cv,omitempty"` // policy entry: chain-valid (default true)
+	Sv   *bool  `json:"sv,omitempty"` // policy entry: self-valid (default true)
 	Ref  string `json:"ref"`
 	S    string `json:"s"`
 	Tree int    `json:"tree"`
 	Par  int    `json:"par"`
 	Tg   []int  `json:"tg"`
 	Apps []vApp `json:"apps"`
+	Crs  []vCr  `json:"crs"`
 }
 
 type vScn struct {
@@ -69,8 +111,10 @@ type vRes struct {
 }
 
 type vObs struct {
-	Full map[string]vRes `json:"full"`
-	Twin map[string]vRes `json:"twin,omitempty"` // same history, policies without their global rules (C11)
+	Full   map[string]vRes            `json:"full"`
+	Latest map[string]vRes            `json:"latest"`
+	From   map[string]map[string]vRes `json:"from"`           // ref -> position -> result of VerifyRefFromEntry
+	Twin   map[string]vRes            `json:"twin,omitempty"` // same history, policies without their global rules (C11)
 }
 
 func fullRef(r string) string { return "refs/heads/" + r }
@@ -83,12 +127,19 @@ func verifyErrClass(err error) string {
 		return "notskipped"
 	case errors.Is(err, policy.ErrLastGoodEntryIsSkipped):
 		return "lgskipped"
-	case errors.Is(err, policy.ErrVerificationFailed), errors.Is(err, policy.ErrVerifierConditionsUnmet):
+	case errors.Is(err, policy.ErrVerificationFailed), errors.Is(err, authorizations.ErrInvalidAuthorization):
 		return "vf"
 	case errors.Is(err, policy.ErrPolicyNotFound):
 		return "nopolicy"
+	case errors.Is(err, policy.ErrMetadataRollbackDetected), errors.Is(err, policy.ErrDanglingDelegationMetadata),
+		strings.Contains(err.Error(), "unable to verify roots of trust"), strings.Contains(err.Error(), "invalidly signed metadata"):
+		return "policyinvalid"
 	case errors.Is(err, rsl.ErrRSLEntryNotFound):
 		return "notfound"
+	}
+	if errors.Is(err, policy.ErrVerifierConditionsUnmet) {
+		// raised outside verifyEntry only by the policy chain / self verification
+		return "policyinvalid"
 	}
 	return "other"
 }
@@ -113,6 +164,21 @@ func (p vPolicy) abs() *conc.AbsPolicy {
 		}
 		ap.Globals = append(ap.Globals, conc.AbsGlobal{Name: fmt.Sprintf("gthr-%d", n+1), Kind: "threshold", Pats: pats, Thr: g.Thr})
 	}
+	if len(p.Apps) > 0 {
+		// principals become persons with a code-review identity per app
+		ap.Persons = map[string]conc.AbsPerson{}
+		ap.Apps = map[string]conc.AbsApp{}
+		for _, pr := range p.All {
+			ident := map[string]string{}
+			for app := range p.Apps {
+				ident[app] = identityOf(pr)
+			}
+			ap.Persons[pr] = conc.AbsPerson{Keys: []string{pr}, Ident: ident}
+		}
+		for app, d := range p.Apps {
+			ap.Apps[app] = conc.AbsApp{Trusted: d.Trusted, Pr: []string{d.Key}, Thr: 1}
+		}
+	}
 	if len(p.Bfp) > 0 {
 		pats := []string{}
 		for _, r := range p.Bfp {
@@ -135,11 +201,14 @@ type vRepo struct {
 	polTip  githash.Hash
 	attTip  githash.Hash
 	num     int
+	rootKey string // key name of the current root principal
+	rootVer int
+	nPol    int
 }
 
 func newVRepo(seed int64, pols map[string]vPolicy) *vRepo {
 	s := memstore.New()
-	return &vRepo{s: s, h: s.Handle(), seed: seed, pols: pols, trees: map[int]githash.Hash{}, targets: []githash.Hash{nil}, ids: []githash.Hash{nil}}
+	return &vRepo{s: s, h: s.Handle(), seed: seed, pols: pols, trees: map[int]githash.Hash{}, targets: []githash.Hash{nil}, ids: []githash.Hash{nil}, rootKey: "root"}
 }
 
 func (r *vRepo) keyPEM(signer string) []byte {
@@ -192,7 +261,35 @@ func (r *vRepo) add(pos int, e vEntry) error {
 		if !ok {
 			return fmt.Errorf("unknown policy %q", e.V)
 		}
-		md, _ := conc.BuildMetadata(p.abs(), r.seed)
+		ap := p.abs()
+		cv, sv := e.Cv == nil || *e.Cv, e.Sv == nil || *e.Sv
+		r.nPol++
+		r.rootVer++
+		signer := r.rootKey
+		if !cv && r.nPol > 1 {
+			if (int(r.seed)+pos)%2 == 0 && r.rootVer > 1 {
+				// version rollback: the root's version number decreases
+				r.rootVer -= 2
+				if r.rootVer < 0 {
+					r.rootVer = 0
+				}
+			} else {
+				// the root of trust is replaced by a key the previous root principals did not sign for
+				r.rootKey = fmt.Sprintf("intruder%d", pos)
+				signer = r.rootKey
+			}
+		}
+		ap.RootPr, ap.RootSig, ap.TgtPr = []string{r.rootKey}, []string{signer}, []string{r.rootKey}
+		ap.RootVer = r.rootVer
+		if ap.RootVer == 0 {
+			ap.RootVer = -1 // BuildMetadata keeps the default (1) for 0; force an explicit 0
+		}
+		ap.Targets.Sig = []string{r.rootKey}
+		if !sv {
+			// the primary rule file is signed by a key its root does not name
+			ap.Targets.Sig = []string{"stranger"}
+		}
+		md, _ := conc.BuildMetadata(ap, r.seed)
 		mdTree, err := md.WriteTree(r.h)
 		if err != nil {
 			return err
@@ -247,15 +344,9 @@ func (r *vRepo) add(pos int, e vEntry) error {
 				}
 				return githash.ZeroHash.String()
 			}
-			stRef, stFrom, stTree := a.Ref, a.From, a.Tree
-			if a.StRef != "" {
-				stRef = a.StRef
-			}
-			if a.StFrom != nil {
-				stFrom = *a.StFrom
-			}
-			if a.StTree != nil {
-				stTree = *a.StTree
+			stRef, stFrom, stTree := a.Sref, a.Sfrom, a.Stree
+			if stRef == "" {
+				stRef, stFrom, stTree = a.Ref, a.From, a.Tree
 			}
 			stmt, err := attestations.NewReferenceAuthorizationForCommit(fullRef(stRef), fromID(stFrom), r.tree(stTree).String())
 			if err != nil {
@@ -271,6 +362,31 @@ func (r *vRepo) add(pos int, e vEntry) error {
 			b, _ := json.Marshal(env)
 			blob, _ := r.h.WriteBlob(b)
 			path := "reference-authorizations/" + attestations.ReferenceAuthorizationPath(fullRef(a.Ref), fromID(a.From), r.tree(a.Tree).String())
+			entries = append(entries, gitstore.TreeEntry{Path: path, ID: blob, Kind: gitstore.KindBlob})
+		}
+		for _, c := range e.Crs {
+			fromID := func(p int) string {
+				if p > 0 && p < len(r.targets) && r.targets[p] != nil {
+					return r.targets[p].String()
+				}
+				return githash.ZeroHash.String()
+			}
+			ids := func(ps []string) []string {
+				out := []string{}
+				for _, x := range ps {
+					out = append(out, identityOf(x))
+				}
+				return out
+			}
+			stmt, err := attestations.NewGitHubPullRequestApprovalAttestation(fullRef(c.Sref), fromID(c.Sfrom), r.tree(c.Stree).String(), ids(c.Approvers), ids(c.Dismissed))
+			if err != nil {
+				return err
+			}
+			env := conc.SignEnv(conc.MakeEnv(stmt), conc.GetKey(r.seed, c.Signer))
+			b, _ := json.Marshal(env)
+			blob, _ := r.h.WriteBlob(b)
+			path := "code-review-approvals/" + attestations.GitHubPullRequestApprovalAttestationPath(fullRef(c.Ref), fromID(c.From), r.tree(c.Tree).String()) +
+				"/" + base64.URLEncoding.EncodeToString([]byte(c.App))
 			entries = append(entries, gitstore.TreeEntry{Path: path, ID: blob, Kind: gitstore.KindBlob})
 		}
 		var tree githash.Hash
@@ -335,6 +451,30 @@ func (r *vRepo) verifyFull(ref string) (res vRes) {
 	return out
 }
 
+// verifyMode: from = 0 -> VerifyRef (latest only); otherwise VerifyRefFromEntry(position from)
+func (r *vRepo) verifyMode(ref string, from int) (res vRes) {
+	defer func() {
+		if x := recover(); x != nil {
+			res = vRes{Res: "panic", Msg: fmt.Sprint(x)}
+		}
+	}()
+	v := policy.NewPolicyVerifier(r.s.Handle())
+	var tip githash.Hash
+	var err error
+	if from == 0 {
+		tip, err = v.VerifyRef(context.Background(), fullRef(ref))
+	} else {
+		tip, err = v.VerifyRefFromEntry(context.Background(), fullRef(ref), r.ids[from])
+	}
+	out := vRes{Res: verifyErrClass(err)}
+	if err != nil {
+		out.Msg = err.Error()
+		return out
+	}
+	out.Tip = r.posOfTarget(tip)
+	return out
+}
+
 func runVerifyScn(scn vScn, pols map[string]vPolicy, strip map[string]string, seed int64) (obs vObs, err error) {
 	if scn.Fam == "global" && strip != nil {
 		twin := vScn{Fam: "twin", Log: append([]vEntry{}, scn.Log...)}
@@ -355,7 +495,8 @@ func runVerifyScn(scn vScn, pols map[string]vPolicy, strip map[string]string, se
 			return obs, fmt.Errorf("entry %d: %w", i+1, err)
 		}
 	}
-	obs.Full = map[string]vRes{}
+	obs.Full, obs.Latest, obs.From = map[string]vRes{}, map[string]vRes{}, map[string]map[string]vRes{}
+	modes := scn.Fam == "chain" || scn.Fam == "cache"
 	for _, ref := range []string{"main", "feat"} {
 		has := false
 		for _, e := range scn.Log {
@@ -368,6 +509,15 @@ func runVerifyScn(scn vScn, pols map[string]vPolicy, strip map[string]string, se
 			continue
 		}
 		obs.Full[ref] = r.verifyFull(ref)
+		if modes {
+			obs.Latest[ref] = r.verifyMode(ref, 0)
+			obs.From[ref] = map[string]vRes{}
+			for i, e := range scn.Log {
+				if e.K == "ref" && e.Ref == ref {
+					obs.From[ref][fmt.Sprint(i+1)] = r.verifyMode(ref, i+1)
+				}
+			}
+		}
 	}
 	return obs, nil
 }
